@@ -1118,6 +1118,13 @@ func main() {
 		facts["trackRewriteInPlace"] = l
 		return "def trackRewriteInPlace : List Bytes := " + bytesList(l)
 	})
+	// ---- commands/command_merge_driver.go (C01): the inputs of a merge are private copies (a temporary file each,
+	// filled by copying or smudging), never links into local storage; a failed smudge ends the merge
+	emit("mergeInputCalls", func() string {
+		l := append(cmds.callsWithConds("mergeProcessInput", "", "lfs.*"), cmds.callsWithConds("mergeProcessInput", "", "Exit")...)
+		facts["mergeInputCalls"] = l
+		return "def mergeInputCalls : List Bytes := " + bytesList(l)
+	})
 	// ---- commands/command_unlock.go (C16): the guard of `unlock --id` finds the lock's path in the local cache
 	// and, failing that, asks the server
 	emit("unlockByIdLookups", func() string {
